@@ -20,7 +20,20 @@ loop:
 
 func (p *Process) notifyDaemonStopped() {
 	if p.procConf.IsDaemon {
-		p.procStateChan <- types.ProcessStateCompleted
+		select {
+		case p.procStateChan <- types.ProcessStateCompleted:
+		default:
+			// a notification is already pending: one is all it takes
+		}
+	}
+}
+
+// forgetDaemonStopped drops a notification that nobody consumed: it belongs to the launch
+// that has just ended and must not end the next one
+func (p *Process) forgetDaemonStopped() {
+	select {
+	case <-p.procStateChan:
+	default:
 	}
 }
 
